@@ -197,6 +197,22 @@ def generate(rng, tier):
             else:
                 lines.append('(cal drange %d %d 1)' % (u, t))   # reversed endpoints: empty list
         yield dict(tag=tag, lines=lines)
+    # exhaustive sweeps of small calendars: every day of the range x every n in [-40, 40]
+    for ci in range(1 if tier == 'quick' else 12):
+        t0 = D(rng.randrange(1950, 2100), rng.randrange(1, 13), rng.randrange(1, 29)).toordinal()
+        t1 = t0 + (70 if tier == 'quick' else rng.randrange(90, 200))
+        weekend, adj = WEEKENDS[ci % 4], 'fpm'[ci % 3]
+        hol = sorted(set(n for n in range(t0, t1 + 1) if rng.random() < rng.choice([0.05, 0.2, 0.4])))
+        cal = (t0, t1, weekend, hol, adj)
+        nv = Naive(*cal)
+        lines = [new_line(cal)]
+        for t in range(t0, t1 + 1):
+            a0 = nv.adjust(t)
+            for n in range(-40, 41):
+                if n == 0 and not (a0 is not None and nv.isb(a0)):
+                    continue
+                lines.append('(cal add d %d %d)' % (t, n))
+        yield dict(tag='exhaustive we=%s adj=%s' % (''.join(map(str, weekend)) or '-', adj), lines=lines)
     # registry histories
     for _ in range(30 if tier == 'quick' else 600):
         yield registry_case(rng)
@@ -319,6 +335,7 @@ def laws(rng, tier, ctx):
             nf += 1
             yield x
             if nf >= 30:
+                count = max(count, nf)
                 break
         else:
             count = x
